@@ -126,6 +126,7 @@ def run(ctx):
     # bodies outside the abstract grammar (adversarial UIDs, overrides): "a replaced collection contains only the new objects"
     from vlib import x_scenarios
     x_scenarios.whole_upload_fidelity(ctx, ctx.n(80, 2000))
+    x_scenarios.truncated_uploads(ctx)
 
 
 def replay(ctx, path):
